@@ -60,6 +60,13 @@ func c12Gen(rng *rand.Rand, idx int, nsim, nkill, nstrace int) c12Scenario {
 			}
 			sc.History = append(sc.History, c)
 		}
+		if idx%4 == 2 {
+			// ends with rollout targets that no split uses (never set, or set and stopped again)
+			sc.History = append(sc.History, Cmd{Kind: "rollout-deploy", Svc: "s0", Targets: g.targets("s0", "r"), DeployTO: 5 * time.Second, DrainTO: time.Second})
+			if idx%8 == 6 {
+				sc.History = append(sc.History, Cmd{Kind: "rollout-set", Svc: "s0", Pct: 50}, Cmd{Kind: "rollout-stop", Svc: "s0"})
+			}
+		}
 		return sc
 	case idx < nsim+nkill:
 		k := idx - nsim
@@ -175,6 +182,7 @@ func c12Sim(t *testing.T, run *Run, sc c12Scenario) {
 		return
 	}
 	points := 0
+	fileStale := false
 	for i, c := range sc.History {
 		pre := configView(w, prim, fmt.Sprintf("pre%d", i))
 		blocked := sc.TmpBlocked && i == len(sc.History)-1 && i > 0
@@ -203,6 +211,7 @@ func c12Sim(t *testing.T, run *Run, sc c12Scenario) {
 			}
 		}
 		_ = repeated
+		fileStale = blocked // the save of this command could not succeed: the file is the previous snapshot
 		if rec.Panic != "" {
 			fail("panic:"+c.Kind, "command panicked: %s", rec.Panic)
 			return
@@ -267,6 +276,39 @@ func c12Sim(t *testing.T, run *Run, sc c12Scenario) {
 			}
 			if changed {
 				run.Class(fmt.Sprintf("sim|%s|%s|file=%s", c.Kind, cp.point, map[bool]string{true: "pre", false: "post"}[sameView(v, pre)]))
+			}
+		}
+	}
+	// (c) what no request can see is configuration too: rollout targets that no split uses. When the
+	// history is over, `rollout set` is issued for every service to the proxy restored from the file
+	// and then to the live one: both accept it or both refuse it.
+	if data, err := os.ReadFile(w.StatePath); err == nil && !fileStale {
+		var names []string
+		for name := range w.Router.ListActiveServices() {
+			names = append(names, name)
+		}
+		sort.Strings(names)
+		dir := w.T.TempDir()
+		os.WriteFile(filepath.Join(dir, "kamal-proxy.state"), data, 0o644)
+		p := w.NewProxy(dir)
+		if rerr := p.Router.RestoreLastSavedState(); rerr == nil {
+			for _, name := range names {
+				restored := p.Router.SetRolloutSplit(name, 100, nil)
+				live := w.RolloutSet(name, 100, nil)
+				run.Count("rollout_set_compared_live_and_restored", 1)
+				if (restored == nil) != (live.Err == "") {
+					fail("state-file-not-current:rollout-set-differs", "after the history, `rollout set %s 100`: the live proxy said %q, the proxy restored from the state file %q", name, live.Err, fmt.Sprint(restored))
+					break
+				}
+				if live.Err == "" {
+					run.Class("sim|rollout-targets-present-at-end")
+				}
+			}
+			for name := range p.Router.ListActiveServices() {
+				func() {
+					defer func() { recover() }()
+					p.Router.RemoveService(name)
+				}()
 			}
 		}
 	}
